@@ -57,6 +57,12 @@ CHECKS['C20'] = dict(
     note='unshaped derivations are over the compiled rules (C03 judges the compilation); three Earley lexers',
     ref='6/C20')
 
+CHECKS['C05'] = dict(
+    technique='TLA+ derivation-set oracle with priority sums (MaxPrio/MinPrio over all derivations, empty-alternative precedence) evaluated by TLC on every real ambiguity=resolve result, obtained in fresh processes under several PYTHONHASHSEED values',
+    text='For every grammar (ambiguous templates, F_bnf, F_rand with random signed rule and terminal priorities), mode normal/invert/None and lexer basic/dynamic, TLC enumerates all derivations (EBNF.tla), computes their total priorities and judges the tree the real lark returned: it is a derivation, its priority is the maximum (minimum under invert) for grammars without directly empty alternatives, an empty alternative is used only where no non-empty one matches, priority=None returns what the priority-free grammar returns, and the tree is identical across 5 (quick) / 32 (thorough) hash seeds in separate processes, repeated calls and a second instance.',
+    note='hash-seed independence sampled, not proved; single-character terminals (terminal priorities add a constant per input)',
+    ref='6/C05')
+
 NOT_APPLICABLE = []
 
 
